@@ -181,6 +181,13 @@ fn check_git_max(c: &GitTagsCase, cx: &mut Cx) -> Res {
     }
     cx.nt_if(made.len() >= 2);
     cx.label_if(c.decoy.is_some(), "branch-named-like-a-tag");
+    if !c.auto && !made.iter().any(|t| osem::parse_v(t).is_some_and(|p| osem::all_numbers_fit_u64(&p))) {
+        ensure!(o.code == Some(1) && o.stdout.is_empty(), "no SemVer tag among {made:?}, but zerv exits {:?} with {:?}", o.code, o.out_str());
+        return Ok(());
+    }
+    if c.auto && o.code != Some(0) {
+        return Ok(()); // auto on a mixed bag may find nothing it accepts; C02 judges the election
+    }
     ensure!(o.code == Some(0), "zerv failed (exit {:?}: {}) on a commit tagged {made:?}", o.code, o.err_str().trim().chars().take(300).collect::<String>());
     let z = <zerv::version::Zerv as FromStr>::from_str(&o.out_str()).map_err(|e| Bad::Fail(format!("output does not parse: {e}")))?;
     let got = z.vars.last_tag_version.clone().unwrap_or_default();
@@ -298,7 +305,9 @@ pub fn property() -> Property {
         (150, 2_500),
         |_| {
             let tag = (0..2usize, 0..400usize, gens::pick(&BUILDS), any::<bool>()).prop_map(|(c, p, b, v)| format!("{}{}{}{}", if v { "v" } else { "" }, ["1.4.0", "1.4.1"][c], pre_lists()[p], b));
-            (proptest::collection::vec(prop_oneof![3 => tag, 1 => big_version()], 1..6), proptest::option::weighted(0.4, 0usize..6), 0u8..2, prop::bool::weighted(0.2))
+            // (names that are no SemVer ride along: floating tags, markers, PEP 440-only spellings)
+            let foreign = gens::pick(&["latest", "v1.4", "1.4", "nightly", "0-first", "1.4.0.post1", "1.4.1rc1", "v1", "stable", "1.4.x"]).prop_map(String::from);
+            (proptest::collection::vec(prop_oneof![6 => tag, 2 => big_version(), 3 => foreign], 1..6), proptest::option::weighted(0.4, 0usize..6), 0u8..2, prop::bool::weighted(0.2))
                 .prop_map(|(tags, decoy, commits_after, auto)| GitTagsCase { tags, decoy, commits_after, auto })
                 .boxed()
         },
